@@ -1258,3 +1258,187 @@ Proof.
     apply Forall_strip in Hps. rewrite Forall_forall in Hps. apply Hps. assumption. }
   rewrite Hsigs. reflexivity.
 Qed.
+
+(* ---------------- the theorem ---------------- *)
+Lemma app_msg_sender : forall a m, m_sender (app_msg a m) = m_sender m.
+Proof. intros a m. unfold app_msg. destruct (special_of _) as [[]|]; try destruct (aa_val a); reflexivity. Qed.
+Lemma fin_msg_sender : forall m m', m_sender (fin_msg m m') = m_sender m'.
+Proof.
+  intros m m'. unfold fin_msg. cbn [m_sender set_m_signals]. unfold fin_matt.
+  generalize (sort_attrs (m_attrs m) ++ wk_msg m). intros l. revert m'.
+  induction l as [|a r IH]; intros m'; cbn [fold_left]; [reflexivity|]. rewrite IH. apply app_msg_sender.
+Qed.
+
+Lemma mk_nodes_strip_rel : forall l i,
+  Forall2 (fun n n' => n_name n' = clear (n_name n)) l (mk_nodes i (map strip_node l)).
+Proof. induction l as [|n r IH]; intros i; cbn [map mk_nodes]; constructor; [reflexivity|apply IH]. Qed.
+
+Lemma proj_nodes_fin : forall l i, Forall (fun n => user_asgs_ok (n_attrs n)) l ->
+  map proj_node (zipf fin_node l (mk_nodes i (map strip_node l))) = map proj_node l.
+Proof.
+  induction l as [|n r IH]; intros i H; cbn [map mk_nodes zipf]; [reflexivity|]. inversion H as [|? ? Hn Hr]; subst.
+  rewrite IH by assumption. f_equal. rewrite fin_node_eval by (try assumption; reflexivity).
+  unfold proj_node. cbn [n_name n_desc n_attrs strip_node]. rewrite clear_spaces_idem, (proj_attrs_img _ (proj1 Hn)). reflexivity.
+Qed.
+
+Lemma imported_msgs_facts : forall es st l l', Forall2 (Rmsg es st) (map strip_msg l) l' ->
+  map m_canid l' = map m_canid l /\
+  forall x, In x (zipf fin_msg l l') -> exists m, In m l /\ m_sender x = clear (m_sender m).
+Proof.
+  intros es st l. induction l as [|m r IH]; intros l' H; cbn [map] in H; inversion H; subst.
+  - split; [reflexivity|intros x []].
+  - destruct (IH _ H4) as [I1 I2]. destruct H2 as [sg [-> _]]. split.
+    + cbn [map m_canid strip_msg]. rewrite I1. reflexivity.
+    + intros x Hx. cbn [zipf] in Hx. destruct Hx as [<-|Hx].
+      * exists m. split; [left; reflexivity|]. rewrite fin_msg_sender. reflexivity.
+      * destruct (I2 x Hx) as [m1 [Hm1 Hs1]]. exists m1. split; [right; assumption|assumption].
+Qed.
+
+Lemma NoDup_snoc : forall {A} (l : list A) x, NoDup l -> ~ In x l -> NoDup (l ++ [x]).
+Proof.
+  intros A l x H Hn. induction H; cbn; [constructor; [intros []|constructor]|].
+  constructor.
+  - intros Hin. apply in_app_or in Hin. destruct Hin as [Hin|[Hin|[]]]; [contradiction|]. subst. apply Hn. left. reflexivity.
+  - apply IHNoDup. intros Hin. apply Hn. right. assumption.
+Qed.
+
+Definition attr_result (b : bus) (es' : list enum_def) (msgs' : list message) : bus :=
+  mkbus (b_name b) (b_desc b) (map img (sort_attrs (b_attrs b)))
+        (zipf fin_node (b_nodes b) (mk_nodes 0 (map strip_node (b_nodes b)))) es' (zipf fin_msg (b_messages b) msgs').
+
+Theorem export_import_attr_thm : forall b, abus b ->
+  exists b', export_import b = Ok b' /\ proj_bus b' = proj_bus b.
+Proof.
+  intros b Hab. pose proof Hab as [Hg [Hsb [HT [Hub [Hun Hum]]]]].
+  destruct (export_g b Hg Hsb) as [L HE].
+  set (d := text_roundtrip (adoc b L)).
+  assert (D2 : d_nodes d = map (fun n => clear (n_name n)) (b_nodes (strip_bus b))).
+  { cbn. rewrite map_map. reflexivity. }
+  assert (D4 : d_messages d = map (dmsg_e (b_enums (strip_bus b))) (b_messages (strip_bus b))).
+  { cbn. rewrite map_map. apply map_ext. intros m. symmetry. apply dmsg_e_strip. }
+  assert (D5 : d_comments d = doc_cms (strip_bus b)) by (symmetry; apply doc_cms_strip).
+  assert (D6 : d_valencs d = bus_vencs (strip_bus b)) by (symmetry; apply bus_vencs_strip).
+  destruct (import_struct (strip_bus b) L d Hsb eq_refl D2 eq_refl D4 D5 D6 eq_refl) as [st' [msgs' [HI [HF HL]]]].
+  cbn [b_name b_desc b_nodes b_messages b_enums strip_bus] in HI, HF, HL.
+  destruct (attrs_map_ok (T_bus b) HT) as [amap [Hfold Hlk]]. cbv zeta in Hfold.
+  pose proof (all_t_ok b amap Hab Hlk) as Hok.
+  destruct Hsb as [_ [_ [Hnn [Hdm [_ [Hms [Hcan [_ [_ Hes]]]]]]]]].
+  cbn [b_nodes b_messages b_enums strip_bus] in Hnn, Hdm, Hms, Hcan, Hes.
+  rewrite map_map in Hnn, Hdm, Hcan. cbn [n_name strip_node m_canid strip_msg] in Hnn, Hdm, Hcan.
+  pose proof (strip_msgs_ok _ _ _ Hms) as Hms'.
+  destruct (imported_msgs_facts _ _ _ _ HF) as [Hcan' Hsend].
+  assert (Hrel : msgs_rel (is_sigmap st') 0 (b_messages b) msgs').
+  { eapply build_msgs_rel; [exact HF| |].
+    - apply Forall_forall. intros m Hm. rewrite Forall_forall in Hms'.
+      destruct (Hms' m Hm) as [_ [_ [_ [_ [_ [Hid _]]]]]]. exact Hid.
+    - intros q m Hq j s Hjs. rewrite (HL q m Hq j s Hjs). reflexivity. }
+  exists (attr_result b (is_enums st') msgs'). split.
+  - unfold export_import. rewrite HE. fold d. rewrite HI. rewrite import_attributes_unfold.
+    change (d_attrdefs d) with (map reparse_def (ea_attrdefs (A_of b))). change (d_attrs d) with (ea_attrs (A_of b)).
+    unfold A_of at 1 2. rewrite Hfold. cbn [bind].
+    assert (Hvals : d_attrvals d = avs (T_bus b)).
+    { change (d_attrvals d) with (map reparse_val (ea_attrvals (A_of b))). unfold A_of. rewrite fold_exp_vals. reflexivity. }
+    rewrite Hvals. unfold T_bus. rewrite avs_app, fold_left_app.
+    rewrite fold_gen.
+    2:{ intros a Ha. assert (Ht : t_ok amap (mktasg OGeneral EmptyString 0 EmptyString a)).
+        { apply Hok. unfold T_bus. apply in_or_app. left. apply in_map. assumption. }
+        destruct Ht as [H1 H2]. split; assumption. }
+    cbn [b_attrs].
+    rewrite (fold_T_nodes amap (is_sigmap st') b (b_nodes b) (mk_nodes 0 (map strip_node (b_nodes b))) _ []
+               [mknode dummy_node 1024 EmptyString []] [] msgs' []).
+    + cbn [app bind]. rewrite app_nil_r. unfold finish.
+      cbn [b_messages b_nodes set_b_messages set_b_nodes set_b_attrs].
+      unfold grouped in Hg. rewrite Hg.
+      assert (Hnos : existsb (fun m => String.eqb (m_sender m) dummy_node) (zipf fin_msg (b_messages b) msgs') = false).
+      { destruct (existsb _ _) eqn:E; [|reflexivity]. exfalso.
+        apply existsb_exists in E. destruct E as [x [Hx He]]. apply String.eqb_eq in He.
+        destruct (Hsend x Hx) as [m [Hm Hs]]. rewrite Forall_forall in Hms'.
+        destruct (Hms' m Hm) as [_ [_ [_ [_ [_ [_ [_ [_ [_ [_ [Hsn _]]]]]]]]]]]. cbn [m_sender strip_msg] in Hsn.
+        rewrite map_map in Hsn. cbn [n_name strip_node] in Hsn. apply in_map_iff in Hsn. destruct Hsn as [n [Hn1 Hn2]].
+        apply Hdm. apply in_map_iff. exists n. split; [|assumption]. rewrite Hn1, <- Hs. assumption. }
+      rewrite Hnos. rewrite filter_app. cbn [filter String.eqb negb]. rewrite app_nil_r.
+      rewrite filter_all.
+      2:{ intros x Hx. assert (Hin : In (n_name x) (map n_name (zipf fin_node (b_nodes b) (mk_nodes 0 (map strip_node (b_nodes b))))))
+            by (apply in_map; assumption).
+          rewrite zipf_names, mk_nodes_names, map_map in Hin. cbn [n_name strip_node] in Hin.
+          destruct (String.eqb (n_name x) dummy_node) eqn:E; [|reflexivity]. apply String.eqb_eq in E. rewrite E in Hin. contradiction. }
+      unfold attr_result, set_b_nodes. cbn [b_name b_desc b_attrs b_enums b_messages].
+      rewrite fold_app_attrs by (cbn [map app]; apply (proj1 (user_sorted _ Hub))). reflexivity.
+    + intros t Ht. apply Hok. unfold T_bus. apply in_or_app. right. assumption.
+    + reflexivity.
+    + apply mk_nodes_strip_rel.
+    + cbn [app]. rewrite map_app, mk_nodes_names, map_map. cbn [map n_name strip_node]. apply NoDup_snoc; assumption.
+    + intros n Hn Heq. apply Hdm. rewrite <- Heq. apply (in_map (fun n => clear (n_name n))). assumption.
+    + cbn [app b_messages set_b_attrs]. rewrite app_nil_r. reflexivity.
+    + cbn [app]. rewrite app_nil_r, Hcan'. assumption.
+    + cbn [length]. unfold grouped in Hg. rewrite Hg. exact Hrel.
+  - unfold proj_bus, attr_result. cbn [b_desc b_attrs b_nodes b_enums b_messages]. f_equal.
+    + apply proj_attrs_img. apply (proj1 Hub).
+    + apply proj_nodes_fin. assumption.
+    + f_equal. apply Forall2_map_l in HF.
+      eapply (zipf_map_eq (fun m m' => Rmsg (b_enums b) st' (strip_msg m) m')); [exact HF|].
+      intros m m' Hm HR. rewrite Forall_forall in Hms', Hum. destruct (Hum m Hm) as [U1 [U2 U3]].
+      eapply proj_message_a; eauto. intros s. apply enum_wf_nth. assumption.
+Qed.
+
+(* ------------------------------------------------------------------------------------------
+   the hypothesis is satisfiable: attributes of the four types (and hex) on the bus, a node, a message and
+   two signals (one float value written as an integer literal by the exporter), an enum signal, the six
+   dedicated fields
+   ------------------------------------------------------------------------------------------ *)
+Local Open Scope string_scope.
+Definition a_flt (v : fl) : attr_asg := mkasg "Sig Flt" (DefFloat fl_zero fl_zero (mkfl 5 1)) (ValFloat v).
+Definition example_attr_bus : bus :=
+  mkbus "bus" "attrs" [mkasg "BusStr" (DefString "d") (ValString "x")]
+    [mknode "ECU 1" 3 "" []; mknode "GW" 7 "the gateway" [mkasg "NInt" (DefInt 1 0 10 false) (ValInt 5)]]
+    [ mkenum "on off" [(1, "on"); (0, "off")] 1 0 ]
+    [ mkmessage 256 "status" 3 BigEndian 100 0 7 2 "ECU 1" ["GW"] "" 
+        [mkasg "MHex" (DefInt 0 0 255 true) (ValInt 16); mkasg "MEnum" (DefEnum "a" ["a"; "b"]) (ValString "b")]
+        [ mksignal 0 "a" KEnum 0 None [] 0 false fl_one fl_zero fl_zero fl_zero "" 0 0 0 "first" fl_zero 3 [a_flt (mkfl 1 1)];
+          mksignal 1 "speed" KStandard 5 None [] 10 true (mkfl 1 (-1)) fl_zero fl_zero (mkfl 1023 (-1)) "km/h" 0 0 0 "" (mkfl 3 0) 0
+                   [a_flt (mkfl 5 (-1))] ];
+      mkmessage 512 "other" 1 LittleEndian 0 20 0 0 "GW" [] "second" [] [] ].
+
+Ltac asgs_tac :=
+  unfold user_asgs_ok; split; [e_nodup|];
+  repeat (apply Forall_cons; [split; [unfold wf_asg; cbn; repeat split; try lia; try reflexivity; try (left; split; reflexivity); try (right; reflexivity);
+                                      try (repeat constructor; cbn; intuition discriminate); try (eexists; reflexivity)|reflexivity]|]);
+  try apply Forall_nil.
+
+Example example_attr_bus_ok : abus example_attr_bus.
+Proof.
+  unfold abus. split; [reflexivity|]. split.
+  { unfold ebus, strip_bus, example_attr_bus. cbn [b_desc b_attrs b_nodes b_messages b_enums map n_name n_desc n_attrs length strip_node strip_msg strip_sig].
+    split; [reflexivity|]. split; [repeat constructor|]. split; [e_nodup|]. split; [vm_compute; intuition discriminate|].
+    split; [cbn; lia|]. split.
+    { constructor; [|constructor; [|constructor]];
+        unfold emessage;
+        cbn [m_desc m_attrs m_cycle m_delay m_startdelay m_sendtype m_canid m_size m_signals m_sender m_receivers];
+        repeat split; try reflexivity; e_fin. }
+    split; [e_nodup|]. split; [e_nodup|]. split; [reflexivity|].
+    repeat (apply Forall_cons;
+      [unfold enum_wf; cbn [en_values en_maxindex en_minsize];
+       split; [e_nodup|]; split; [e_nodup|];
+       split; [intros v Hv; cbn in Hv; intuition (subst; cbn; lia)|]; split; cbn; lia|]).
+    apply Forall_nil. }
+  split.
+  { unfold T_ok. split.
+    - apply Forall_forall. vm_compute. repeat constructor; try lia; try reflexivity; try (intros Hh; discriminate Hh);
+        try (left; split; reflexivity); try (right; reflexivity); try (intuition discriminate); try (eexists; reflexivity).
+    - intros t t' Ht Ht'. revert t' Ht'. apply Forall_forall. revert t Ht. apply Forall_forall.
+      vm_compute. repeat constructor; intros Hh; first [reflexivity | discriminate Hh]. }
+  split; [asgs_tac|]. split.
+  { repeat (apply Forall_cons; [cbn [n_attrs]; asgs_tac|]). apply Forall_nil. }
+  repeat (apply Forall_cons; [cbn [m_attrs m_sendtype m_signals]; split; [asgs_tac|]; split; [lia|];
+     repeat (apply Forall_cons; [cbn [s_attrs s_startval s_sendtype]; split; [asgs_tac|]; split; [first [left; split; reflexivity|right; reflexivity]|lia]|]);
+     try apply Forall_nil|]).
+  apply Forall_nil.
+Qed.
+
+Example example_attr_bus_roundtrip :
+  exists b', export_import example_attr_bus = Ok b' /\ proj_bus b' = proj_bus example_attr_bus /\
+             map (fun m => (m_cycle m, m_delay m, m_startdelay m, m_sendtype m, map aa_name (m_attrs m),
+                            map (fun s => (s_startval s, s_sendtype s, map aa_val (s_attrs s))) (m_signals m))) (b_messages b')
+             = [ (100, 0, 7, 2, ["MEnum"; "MHex"], [(fl_zero, 3, [ValFloat (mkfl 1 1)]); (mkfl 3 0, 0, [ValFloat (mkfl 5 (-1))])]);
+                 (0, 20, 0, 0, [], []) ].
+Proof. eexists. split; [vm_compute; reflexivity|]. split; vm_compute; reflexivity. Qed.
